@@ -16,6 +16,12 @@ def cz(x):
     return norm(x).replace(' ', '').replace('\n', '')
 
 
+def czs(src):
+    """Canonical compact text of a source snippet (one statement), through the same ast.unparse as cz()."""
+    import textwrap
+    return cz(ast.parse(textwrap.dedent(src)).body[0])
+
+
 def _ends_with_exit(block):
     return bool(block) and isinstance(block[-1], (ast.Continue, ast.Break, ast.Return, ast.Raise))
 
